@@ -45,7 +45,7 @@ def spelling(draw, segs: list[str], root_name: str = "capsule", hostile=True):
     parts: list[str] = []
     for s in segs:
         mode = draw(st.integers(0, 5))
-        if not s.isascii() and draw(st.integers(0, 2)) == 0:
+        if not s.isascii() and draw(st.booleans()):
             # another Unicode normalisation form of the same visible name (a different name on disk)
             import unicodedata
 
